@@ -192,6 +192,35 @@ def scripted(run, tier, nprng):
                     run.violation({"kind": "torchscript_differs_from_eager", "module": type(mod).__name__, "N": N})
 
 
+def dynamic_range(run, tier, nprng):
+    """Single-precision signals with a large dynamic range (speech after a door slam, a slam after speech): every frame's
+    coefficients, the energy included, agree with compute_full on the same samples to single precision."""
+    from pydrobert.speech import compute
+    with warnings.catch_warnings():
+        warnings.simplefilter("ignore")
+        bank = filters.TriangularOverlappingFilterBank("mel", num_filts=6, sampling_rate=16000)
+        for (log, power) in ((True, True), (True, False), (False, True)):
+            c = compute.STFTFrameComputer(bank, frame_length_ms=25, frame_shift_ms=10, include_energy=True, use_log=log, use_power=power)
+            tc = pt.PyTorchSTFTFrameComputer.from_stft_frame_computer(c)
+            loud, quiet = nprng.randn(16000) * 6000.0, nprng.randn(16000) * 3.0
+            # (noise only: a constant offset leaves nothing but single-precision cancellation noise in the filter outputs,
+            # about which the property promises nothing)
+            for label, x in (("loud_then_quiet", np.concatenate([loud, quiet])), ("quiet_then_loud", np.concatenate([quiet, loud]))):
+                x32 = x.astype(np.float32)
+                a = tc(torch.from_numpy(x32)).detach().numpy().astype(np.float64)
+                b = c.compute_full(x32).astype(np.float64)
+                run.evaluations += 1
+                if a.shape != b.shape:
+                    run.violation({"kind": "torch_shape_differs", "signal": label, "use_log": log, "use_power": power})
+                    continue
+                ok = np.isclose(a, b, rtol=2e-3, atol=2e-3 if log else 1e-30)
+                if not ok.all():
+                    fr, co = (int(v) for v in np.argwhere(~ok)[0])
+                    run.violation({"kind": "torch_differs_from_numpy_at_float32", "signal": label, "use_log": log, "use_power": power,
+                                   "frame": fr, "coefficient": co, "torch": float(a[fr, co]), "numpy": float(b[fr, co]),
+                                   "n_off": int((~ok).sum())})
+
+
 def run(tier, seed):
     run = common.Run("C14", tier, seed)
     nprng = np.random.RandomState(seed)
@@ -204,6 +233,7 @@ def run(tier, seed):
     pre_post_si(run, tier, nprng)
     dither_law(run, tier)
     scripted(run, tier, nprng)
+    dynamic_range(run, tier, nprng)
     run.traces += run.evaluations  # every evaluation is a replay of a spec-exported row / case on the real modules
     run.extra["rule"] = "SpectrumWalk table and C02 value matrix through the torch module (float64 parameters), every N in 0..3L+3 for shapes (float32 and float64), pre/post/SI wrappers, dither law, TorchScript sub-matrix"
     return run.finish()
